@@ -16,7 +16,8 @@ ASSUMPTIONS = [
     "Array-of-rows model with per-bit 'unknown' marks; unknown (not compared): reads beyond depth, bits written by two ports in "
     "the same instant, bits read in the same instant as a write from another clock domain, sync read data before its first "
     "enabled capture.",
-    "No domain resets are applied (the statement does not define read data under reset).",
+    "Domain resets (sync and async, at arbitrary instants, in their own step) are applied and must have no effect: the storage "
+    "and the read ports have no reset, and writes/captures happen at clock edges only.",
     "Port inputs change only between edges.",
 ]
 COMPONENTS = {"real": ["amaranth.lib.memory.Memory/ReadPort/WritePort", "amaranth.hdl._mem.MemoryInstance/MemoryData",
@@ -54,7 +55,7 @@ def gen_case(seed, tier):
     ninit = cfg.randint(0, depth)
     init = [cfg.randrange(1 << width) for _ in range(ninit)]
     ndom = cfg.choice([1, 1, 2])
-    doms = [{"name": n, "edge": cfg.choice(["pos", "neg"])} for n in ("a", "b")[:ndom]]
+    doms = [{"name": n, "edge": cfg.choice(["pos", "neg"]), "async": cfg.random() < 0.3} for n in ("a", "b")[:ndom]]
     wports = []
     for _ in range(cfg.choice([0, 1, 1, 2, 2])):
         g = None
@@ -109,6 +110,8 @@ def gen_case(seed, tier):
         return shape["len"] // g
 
     levels = {d["name"]: 0 for d in doms}
+    rlv = {d["name"]: 0 for d in doms}
+    p_rst = fl.choice([0.0, 0.0, 0.05, 0.15])
     steps = []
     while len(steps) < nsteps:
         for _ in range(wl.choice([0, 1, 1, 2, 3, 5])):
@@ -148,6 +151,11 @@ def gen_case(seed, tier):
             levels[n] ^= 1
             ch[n] = levels[n]
         steps.append({"k": "ev", "l": ch})
+        if p_rst and fl.random() < p_rst:
+            # a domain reset at an arbitrary instant (its own step): storage and read ports have no reset, so nothing may happen
+            dn = fl.choice(sorted(rlv))
+            rlv[dn] ^= 1
+            steps.append({"k": "rst", "l": {dn: rlv[dn]}})
     return {"config": config, "sched": {"mode": sc.choice(["seeded", "seeded", "reverse", "insertion"]),
                                         "seed": sc.randrange(1 << 32)}, "steps": steps, "rtlil": sc.random() < 0.3}
 
@@ -253,7 +261,7 @@ def run_case(case):
                         "cross_domain_collision": 0, "row_rd": 0, "row_wr": 0, "granular_write": 0, "port_writes": 0,
                         "read_compares": 0, "rtlil_compared_bits": 0, "rtlil_undefined_bits_skipped": 0}}
     P, F = stats["probes"], stats["faults"]
-    domains = [DomainSpec(d["name"], edge=d["edge"]) for d in config["domains"]]
+    domains = [DomainSpec(d["name"], edge=d["edge"], async_reset=d.get("async", False)) for d in config["domains"]]
     act = {d["name"]: (1 if d["edge"] == "pos" else 0) for d in config["domains"]}
     run = ManualRun(dut, domains, sched_mode=case["sched"]["mode"], sched_seed=case["sched"]["seed"])
     gmasks = [granule_bits(config, w) for w in config["wports"]]
@@ -322,6 +330,13 @@ def run_case(case):
                     sets_since += 1
                     if sets_since == 4:
                         F["glitch-in"] += 1
+            elif k == "rst":
+                ch = {n + ".rst": lvl for n, lvl in st["l"].items() if n in lv}
+                if ch:
+                    F["reset"] = F.get("reset", 0) + 1
+                    if any(d.get("async") and st["l"].get(d["name"]) for d in config["domains"]):
+                        P["async_reset_rise"] = P.get("async_reset_rise", 0) + 1
+                    drv.drive(ch)
             elif k == "row_wr":
                 if st["a"] < depth:
                     v = st["v"] & full
@@ -423,12 +438,26 @@ def run_case(case):
 
     run_guarded(res, lambda: run.run(body))
     stats["decisions"] = run.decisions
+    if res.violation is None and res.harness_error is None and depth > 0 and case.get("restart", True):
+        # restart: a second simulator over the very same design object must find the declared initial contents
+        # (storage written in the first run must not leak into the design's init)
+        run2 = ManualRun(dut, domains, sched_mode="insertion", sched_seed=0)
+
+        def body2(drv):
+            for a in range(depth):
+                got = raw(drv.get(Value.cast(mem.data[a])))
+                want = config["init"][a] if a < len(config["init"]) else 0
+                if got != want:
+                    raise Violation("initial_contents_after_restart", len(case["steps"]),
+                                    {"addr": a, "got": got, "declared": want})
+            P["restart_checked"] = P.get("restart_checked", 0) + 1
+        run_guarded(res, lambda: run2.run(body2))
     if case.get("rtlil") and res.violation is None:
         # RTLIL clause: the emitted memory cells, executed by the RTLIL interpreter under the same port/clock steps
         from props import c04
-        st2 = {"steps": 0, "edges": 0, "faults": {"coincide": 0}, "probes": {"compared_bits": 0, "undefined_bits_skipped": 0,
+        st2 = {"steps": 0, "edges": 0, "faults": {"coincide": 0, "srst": 0}, "probes": {"compared_bits": 0, "undefined_bits_skipped": 0,
                                                                           "memory_design": 0}}
-        c = dict(case, steps=[s for s in case["steps"] if s["k"] in ("set", "ev")])
+        c = dict(case, steps=[s for s in case["steps"] if s["k"] in ("set", "ev", "rst")])
         run_guarded(res, lambda: c04.run_memory(c, res, st2))
         P["rtlil_compared_bits"] = st2["probes"]["compared_bits"]
         P["rtlil_undefined_bits_skipped"] = st2["probes"]["undefined_bits_skipped"]
